@@ -63,6 +63,10 @@ impl Socket for RouterSocket {
 impl SocketRecv for RouterSocket {
     async fn recv(&mut self) -> ZmqResult<ZmqMessage> {
         loop {
+            // Release what is still held for peers whose connection has ended.
+            for (peer_id, connection_id) in self.fair_queue.take_closed() {
+                self.backend.peer_closed(&peer_id, connection_id).await;
+            }
             match self.fair_queue.next().await {
                 Some((peer_id, Ok(Message::Message(mut message)))) => {
                     message.push_front(peer_id.into());
